@@ -209,6 +209,9 @@ func genDst(r *core.Rand, needed int, allowInplace bool) dstSpec {
 		}
 	}
 	d := dstSpec{Mode: "fresh", Len: r.PickInt(0, 0, 1, 7, 16, 33)}
+	if r.Chance(1, 60) { // a long prefix: bulk paths of whatever moves it on reallocation
+		d.Len = r.PickInt(2047, 2048, 2052, 2055, 4099, 5006, 66005)
+	}
 	switch r.Intn(5) {
 	case 0:
 		d.Spare = 0
